@@ -327,6 +327,8 @@ impl ServerState {
             // no permit: a `Notified` future only observes calls made after it was created, so
             // creating it after the checks would lose a notification sent in between and leave
             // this task waiting forever.
+            #[cfg(fuellabs_sway_verif)]
+            sway_utils::verif::step("T.create", "");
             let notified = self.finished_compilation.notified();
             tokio::pin!(notified);
             notified.as_mut().enable();
@@ -349,7 +351,11 @@ impl ServerState {
                 }
             }
             // We are still compiling, lets wait to be notified.
+            #[cfg(fuellabs_sway_verif)]
+            sway_utils::verif::step("T.await", "");
             notified.await;
+            #[cfg(fuellabs_sway_verif)]
+            sway_utils::verif::step("T.woke", "");
         }
     }
 
